@@ -924,7 +924,7 @@ theorem run_inv {s : St} (r : Run Sec Held HeldFin s) : Inv Sec Held HeldFin s :
   | @discharge s ka rn ticket loc p cs dm _ ht hn hd ih =>
     obtain ⟨hts, tn, cs0, rfl⟩ := ih.tickets _ _ _ ht
     have ho : openTicket (atom ka) (box (atom ka) tn (ticketT (atom rn) cs0)) = .ok (atom rn) cs0 :=
-      LawfulCrypto.openTicket_sealTicket (B := Term) (atom ka) tn (atom rn) cs0
+      LawfulCrypto.openTicket_sealTicket (B := Term) (atom ka) tn (atom rn) cs0 trivial trivial trivial
     simp only [dischargeTicket, ho] at hd
     cases hd
     refine ⟨ih.pub, ?_, ih.tickets, ?_, ?_⟩
